@@ -4,7 +4,7 @@
    struct tags (gen/Schema_gen.v) and is what the tie executes; C9 / C9I instantiate it with scalars, string
    lists and custom types given by their own codec (version: C03, dependency and architecture: C05). *)
 From Coq Require Import List Ascii String Bool Arith NArith ZArith Lia.
-Require Import GS V3 V4 L10 L11 R2 R3 PU C9 C9G C9I C9T CX C9C.
+Require Import GS V3 V4 L10 L11 R2 R3 PU C9 C9G C9I C9T CX C9C C9U.
 Import ListNotations.
 
 (* every value kind round-trips: string, int, uint, bool *)
@@ -83,6 +83,17 @@ Theorem C09_update_order : forall p q, R3.pinv p ->
   R2.order (PU.update p q) = R2.order p ++ PU.fresh (R2.order p) (R2.order q).
 Proof. exact PU.update_order. Qed.
 Print Assumptions C09_update_order.
+
+(* convertToParagraph as the code has it - the kept fields of the embedded paragraph put into a fresh paragraph with Set,
+   then Update with the struct's own fields - gives the order and the values of C9.convert, the function the round-trip
+   theorems above are about; and the result satisfies the paragraph invariant *)
+Theorem C09_convert_is_set_then_update : forall sch r found, C9.keys_distinct sch -> R3.pinv (C9U.toR found) ->
+  R2.order (C9U.convert_code sch r found) = C9.order (C9.convert sch r found) /\
+  (forall k, In k (C9.order (C9.convert sch r found)) ->
+     C9.lookup k (C9.values (C9.convert sch r found)) = Some (R2.lookup k (R2.values (C9U.convert_code sch r found)))) /\
+  R3.pinv (C9U.convert_code sch r found).
+Proof. exact C9U.convert_is_set_then_update. Qed.
+Print Assumptions C09_convert_is_set_then_update.
 
 (* marshalling never "panics" in the model: it is a total function returning text or an error *)
 Example C09_marshal_total : forall sch hp found r, exists o, marshal_text sch hp found r = o.
